@@ -1,2 +1,4 @@
 """Property oracles over implementation traces of programs (filled in below)."""
 ORACLES = {}
+ORACLES_PARAMS = {}
+ORACLES_EVOCMD = {}
